@@ -422,6 +422,7 @@ DIRECTED = [
     "http://example.com/x?source=twit&platform=suite&mode=&output=am&fromref=twitt&sns=t&_ss=&marfeeltn=mp&platform&mode&ref=twitterx&ref=&ref&s=123&s=ab&s=&s&m=2&m=&spref=x&outputtype=am&outputType=amp",
     "http://example.com/x?si=abc&t=42&ab_channel=z&_rdr=1&_rdc=2&cbrd=1&ucbcb=1", "http://notyoutube.com.example.org/watch?v=aBcDeFgHiJk&t=42&si=x", "https://www.youtube.com/results?search_query=cats&t=42&si=x&hl=fr",
     "https://www.facebook.com/x/y?_rdr=1&t=42", "http://example.com/x?amp&amp_js_v=0.1&amp=1&AMP_x=2&usqp=mq&id=1",
+    "http://www./path/x", "http://m./abc", "http://amp./x/y", "http://mobile./", "http://www.m./x", "http://www/x", "http://amp-x./q?a=1",
     "http://bücher.xn--p1ai/x", "http://xn--bcher-kva.рф/x?a=1", "http://WWW.Bücher.XN--P1AI/x", "http://blog.xn--bcher-kva.de/", "http://amp-news.xn--tlrama-bvab.fr/a",
     "http://example.com/a/index.tar.gz", "http://example.com/a/default.min.js", "http://example.com/a/index.foo.bar/", "http://example.com/a/.index", "http://example.com/a/index.", "http://example.com/?id=&id&ID=1&Id=2", "http://example.com/?q=a+b&q=a%20b&%71=c",
 ]
